@@ -13,7 +13,7 @@ EVIDENCE = dict(
          "nothing or a heading level (built-in style, name only in either case, outline level only; ODT: with / without "
          "default-outline-level) and whose root is based on nothing / the default style / an undefined style / a style of the "
          "chain (cycle), with the spec-computed level (nearest declaration wins), D every heading declaration x header/footer parts and nested list runs; each for DOCX and "
-         "ODT. O every sheet of 2..3 (thorough 4) independent styles x place (styles.xml / content.xml automatic styles) x the style used (first / middle / last declared) x heading with / without its own outline level, alone or mixed, with a cross-place parent chain; W every properly nested arrangement of <= 5 blocks over paragraph, table, wrapper open / close and marker (thorough: both wrapper kinds, all markers, cell-level wrappers, a heading); L every list tree of <= 3 (thorough 4) items over depths 0..3 with empty items, restarts, level jumps and (ODT) item-less wrappers / continuation paragraphs, also checked in the Lists() view; H every history of 3 calls out of {Text, Markdown, MarkdownWithOptions, MarkdownWithRAGOptions x heading options x ExcludeHeaders/ExcludeFooters, Document, ModelTables} on ONE reader over documents with headings of level 1..9 (ODT ..10), each call compared with the spec's levels for a fresh reader and with a fresh reader's result. Each case is rendered by the independent writers and read through docx.Open/odt.Open and tabula.Open "
+         "ODT. O every sheet of 2..3 (thorough 4) independent styles x place (styles.xml / content.xml automatic styles) x the style used (first / middle / last declared) x heading with / without its own outline level, alone or mixed, with a cross-place parent chain; W every properly nested arrangement of <= 5 blocks over paragraph, table, wrapper open / close and marker (thorough: both wrapper kinds, all markers, cell-level wrappers, a heading); N every nesting of inline containers around a run (in paragraph, heading, list item, table cell); L every list tree of <= 3 (thorough 4) items over depths 0..3 with empty items, restarts, level jumps and (ODT) item-less wrappers / continuation paragraphs, also checked in the Lists() view; H every history of 3 calls out of {Text, Markdown, MarkdownWithOptions, MarkdownWithRAGOptions x heading options x ExcludeHeaders/ExcludeFooters, Document, ModelTables} on ONE reader over documents with headings of level 1..9 (ODT ..10), each call compared with the spec's levels for a fresh reader and with a fresh reader's result. Each case is rendered by the independent writers and read through docx.Open/odt.Open and tabula.Open "
          "(Text, Markdown, Document). Non-trivial = body with a table or a paragraph mixing >= 3 inline kinds; distinct by "
          "format + body. Traces = documents (a sample of the cases + larger random ones) whose observed model WordDocTrace.tla accepted.",
     assumptions=["the DOCX/ODT writers (harness/internal/wpw) are trusted; they are audited for XML well-formedness, token numbering "
@@ -66,6 +66,11 @@ NOTES = """Interpretation choices (soundness first):
   call's OWN options do not cover is body content and is shown; paragraphs the options cover may be filtered - there
   only purity is asserted (same result as a fresh reader for the same call; in traces: the same call repeats its
   result).  The reader that collects the lines to filter for the options of its first excluding call is refuted by TLC.
+* Nested inline containers (family N): a run inside every nesting (depth 2..3) of hyperlink, tracked insertion,
+  run-level content control, smart tag, simple field, bidirectional override (DOCX; also each alone) / span, link and
+  ruby (ODT; the ruby base is the text, the ruby-text annotation is not asserted), between two plain runs, in a body
+  paragraph, a heading, a list item, and in table cells: every run's text once, in order.  ODT change marks and
+  w:dir / w:customXml / w:moveTo nestings are not generated.
 * Block-level wrappers and markers (family W): DOCX w:sdt/w:sdtContent (also nested, also around the paragraphs of
   every table cell), w:customXml, bookmarkStart/End, proofErr, an empty content control; ODT text:section (nested, also
   inside table cells), text:table-of-content/text:index-body, text:soft-page-break, an empty section, and
@@ -148,7 +153,7 @@ def run(ctx):
     # quick: all families with their quick bounds in ONE TLC run (WordDoc_Q.cfg = A<=3, B 2x2, C 2x2 + wide, D, S<=4, L<=3, O<=3)
     cfgs = ["WordDoc_Q.cfg"] if q else \
            ["WordDoc_A_thorough.cfg", "WordDoc_B_quick.cfg", "WordDoc_B_thorough.cfg", "WordDoc_B_thorough2.cfg",
-            "WordDoc_C_thorough.cfg", "WordDoc_D.cfg", "WordDoc_S.cfg", "WordDoc_L_thorough.cfg", "WordDoc_O_thorough.cfg", "WordDoc_W_thorough.cfg"]
+            "WordDoc_C_thorough.cfg", "WordDoc_D.cfg", "WordDoc_S.cfg", "WordDoc_L_thorough.cfg", "WordDoc_O_thorough.cfg", "WordDoc_W_thorough.cfg", "WordDoc_N.cfg"]
     cases, seen = [], set()
     for cfg in cfgs:
         gen = ctx.tlc("WordDocMC", cfg, workers=8, collect=True, timeout=3000)
